@@ -1447,7 +1447,12 @@ class TrigInfo:
 
         kill_me = bool(self.task_unique_kwargs and self.task_unique_kwargs["kill_me"])
 
-        async def do_func_call(func, ast_ctx, task_unique, task_unique_func, hass_context, /, **kwargs):
+        async def do_func_call(func, ast_ctx, task_unique, task_unique_func, hass_context, kwargs):
+            #
+            # the trigger's arguments arrive as one dict and become keyword arguments only below,
+            # where an exception (eg, event data with a key that isn't a string) is reported for
+            # this run; raised in the trigger task it would end the trigger
+            #
             # Store HASS Context for this Task
             Function.store_hass_context(hass_context)
 
@@ -1470,7 +1475,7 @@ class TrigInfo:
             self.task_unique,
             task_unique_func,
             hass_context,
-            **func_args,
+            dict(func_args),
         )
         if run_task:
             task = Function.create_task(func, ast_ctx=action_ast_ctx)
